@@ -26,8 +26,6 @@ def HonoursPinsM (resolve : OverrideMulti.Pins → OverrideMulti.Res) : Prop :=
 
 /-- `slices.SortFunc` contract: the list is ascending in the comparator's rank -/
 def Sorted (rank : Nat → Nat) (vs : List Nat) : Prop := vs.Pairwise (fun a b => rank a ≤ rank b)
-/-- … and the comparator never calls two listed versions equal (false for Maven's `1.0` / `1.0.0`) -/
-def StrictSorted (rank : Nat → Nat) (vs : List Nat) : Prop := vs.Pairwise (fun a b => rank a < rank b)
 
 /-! ### what the property accepts (used by the driver for its `spec=` verdicts) -/
 
